@@ -825,29 +825,30 @@ fn gen_dlt(g: &str, seed: u64, small: bool) -> Vec<u8> {
 
 // ================================================================= mutations
 #[derive(Clone, Copy, Debug)]
-struct Loc { start: usize, htyp: u8, len: usize, hdr: usize, tmsp: Option<usize>, ext: Option<usize>, payload: usize, end: usize }
+struct Loc { start: usize, std: usize, htyp: u8, len: usize, hdr: usize, tmsp: Option<usize>, ext: Option<usize>, payload: usize, end: usize }
 /// storage-framed messages of a byte stream (best effort walker, used to aim the field mutations)
 fn walk(b: &[u8]) -> Vec<Loc> {
     let mut v = vec![];
     let mut i = 0;
-    while i + 20 <= b.len() {
-        if &b[i..i + 4] != b"DLT\x01" {
+    while i + 8 <= b.len() {
+        let base = if &b[i..i + 4] == b"DLT\x01" { 16 } else if &b[i..i + 4] == b"DLS\x01" { 4 } else { 0 };
+        if base == 0 || i + base + 4 > b.len() {
             i += 1;
             continue;
         }
-        let htyp = b[i + 16];
-        let len = u16::from_be_bytes([b[i + 18], b[i + 19]]) as usize;
+        let htyp = b[i + base];
+        let len = u16::from_be_bytes([b[i + base + 2], b[i + base + 3]]) as usize;
         let mut hdr = 4;
         if htyp & 4 != 0 { hdr += 4 }
         if htyp & 8 != 0 { hdr += 4 }
-        let tmsp = if htyp & 0x10 != 0 { hdr += 4; Some(i + 16 + hdr - 4) } else { None };
-        let ext = if htyp & 1 != 0 { hdr += 10; Some(i + 16 + hdr - 10) } else { None };
-        if len < hdr || i + 16 + len > b.len() {
+        let tmsp = if htyp & 0x10 != 0 { hdr += 4; Some(i + base + hdr - 4) } else { None };
+        let ext = if htyp & 1 != 0 { hdr += 10; Some(i + base + hdr - 10) } else { None };
+        if len < hdr || i + base + len > b.len() {
             i += 1;
             continue;
         }
-        v.push(Loc { start: i, htyp, len, hdr, tmsp, ext, payload: i + 16 + hdr, end: i + 16 + len });
-        i += 16 + len;
+        v.push(Loc { start: i, std: i + base, htyp, len, hdr, tmsp, ext, payload: i + base + hdr, end: i + base + len });
+        i += base + len;
     }
     v
 }
@@ -876,16 +877,16 @@ fn mutate_fields(b: &mut Vec<u8>, rng: &mut Rng, what: u64) {
             0 => {
                 let cands = [0usize, 1, 3, 4, l.hdr.saturating_sub(1), l.hdr, l.hdr + 1, l.len.saturating_sub(1), l.len + 1, 0xffff, r16];
                 let v = *rng.pick(&cands) as u16;
-                put(b, l.start + 18, &v.to_be_bytes());
+                put(b, l.std + 2, &v.to_be_bytes());
             }
             1 => {
                 if let Some(t) = l.tmsp {
-                    let secs = u32::from_le_bytes([b[l.start + 4], b[l.start + 5], b[l.start + 6], b[l.start + 7]]) as u64;
+                    let secs = if l.std == l.start + 16 { u32::from_le_bytes([b[l.start + 4], b[l.start + 5], b[l.start + 6], b[l.start + 7]]) as u64 } else { 0 };
                     let v = match rng.below(6) { 0 => 0, 1 => 1, 2 => u32::MAX, 3 => u32::MAX - 1, 4 => (secs * 10_000 + rng.below(100_000) + 1).min(u32::MAX as u64) as u32, _ => rng.next() as u32 };
                     put(b, t, &v.to_be_bytes());
                 }
             }
-            2 => {
+            2 if l.std == l.start + 16 => {
                 if rng.chance(1, 2) {
                     let v = *rng.pick(&[0u32, 1, 59, 61, u32::MAX, 0x7fff_ffff, 0x8000_0000, rn]);
                     put(b, l.start + 4, &v.to_le_bytes());
@@ -896,7 +897,7 @@ fn mutate_fields(b: &mut Vec<u8>, rng: &mut Rng, what: u64) {
             }
             3 => {
                 let v = if rng.chance(1, 2) { l.htyp ^ (1 << rng.below(8)) } else { rng.below(256) as u8 };
-                b[l.start + 16] = v;
+                b[l.std] = v;
             }
             4 => {
                 if let Some(e) = l.ext {
@@ -930,14 +931,14 @@ fn mutate_fields(b: &mut Vec<u8>, rng: &mut Rng, what: u64) {
                 if n > 0 {
                     let cut = rng.range(1, n as u64) as usize;
                     b.drain(l.end - cut..l.end);
-                    if rng.chance(2, 3) { put(b, l.start + 18, &((l.len - cut) as u16).to_be_bytes()); }
+                    if rng.chance(2, 3) { put(b, l.std + 2, &((l.len - cut) as u16).to_be_bytes()); }
                     return; // locations are stale now
                 }
             }
             9 => {
                 let v = *rng.pick(&[[0u8, 0, 0, 0], [0xff, 0xff, 0xff, 0xff], [0xc3, 0xa9, 0xc3, 0xa9], *b"ECU1", *b"Ecu1", [b'E', 0, b'X', 0]]);
-                put(b, l.start + 12, &v);
-                if l.htyp & 4 != 0 { put(b, l.start + 20, &v); }
+                if l.std == l.start + 16 { put(b, l.start + 12, &v); }
+                if l.htyp & 4 != 0 { put(b, l.std + 4, &v); }
             }
             _ => {
                 // reorder: move / duplicate a message
@@ -1316,7 +1317,14 @@ fn run_range(list: &str, from: usize, to: usize, allow: &str, errf: &str, limit_
     use std::os::unix::process::ExitStatusExt;
     let mut res: Vec<Option<Outcome>> = vec![None; to - from];
     let mut next = from;
+    let mut timeouts = 0;
     while next < to {
+        if timeouts >= 3 {
+            // circuit breaker: do not spend limit_s on each of the remaining cases
+            res[next - from] = Some(Outcome::Died("not run: three cases of this worker's block already hit the time limit".into()));
+            next += 1;
+            continue;
+        }
         let _ = std::fs::write(errf, b"");
         let mut child = spawn_worker(list, next, to, allow, errf);
         let so = child.stdout.take().unwrap();
@@ -1352,6 +1360,7 @@ fn run_range(list: &str, from: usize, to: usize, allow: &str, errf: &str, limit_
                     let i = running.unwrap_or(next);
                     res[i - from] = Some(Outcome::Timeout);
                     next = i + 1;
+                    timeouts += 1;
                     break;
                 }
                 Err(std::sync::mpsc::RecvTimeoutError::Disconnected) => {
@@ -1386,7 +1395,7 @@ fn run_all(out: &std::path::Path, recipes: &[Value], limit_s: u64) -> (Vec<Outco
     let list = list.to_string_lossy().to_string();
     // baseline: input-independent large requests (detector queue of 10^7 messages, sort heap of 2^20 entries, ...)
     let exe = std::env::current_exe().unwrap();
-    let b = std::process::Command::new("sh").arg("-c").arg(format!("ulimit -v 4194304; exec '{}' --worker --baseline 2>/dev/null", exe.display())).output().expect("baseline");
+    let b = std::process::Command::new("sh").arg("-c").arg(format!("ulimit -v 4194304; exec timeout -s KILL 120 '{}' --worker --baseline 2>/dev/null", exe.display())).output().expect("baseline");
     let bo = String::from_utf8_lossy(&b.stdout).to_string();
     let allow = bo.lines().find_map(|l| l.strip_prefix("BASELINE ")).unwrap_or("").to_string();
     if bo.contains("BASELINE-FAIL") || !bo.contains("BASELINE ") {
@@ -1624,7 +1633,7 @@ fn main() {
         build_cases(&a.tier, a.seed, a.count)
     };
     let recipes: Vec<Value> = cases.iter().map(|c| c.0.clone()).collect();
-    let limit_s = if a.tier == "quick" { 60 } else { 120 };
+    let limit_s = if a.tier == "quick" { 20 } else { 60 };
     let t0 = std::time::Instant::now();
     let (outcomes, allow) = run_all(&a.out, &recipes, limit_s);
     let wall = t0.elapsed().as_secs_f64();
